@@ -217,3 +217,64 @@ def function_word_tables(ctx, rule):
             ctx.fail(rule, key, lc.body.where(), "%s: function-word rows are not (word, part-of-speech): %s" % (lname, bad[:2]))
         else:
             ctx.ok(rule, key, lc.body.where(), "%s: %d function words registered as (word, part of speech)" % (lname, len(d["pos"])))
+
+
+def normalisation_loops(ctx, rule):
+    """R11.h: Lang::unicode_compose / unicode_reduce run the Normalize iteration over the whole input with their own map on
+    every path to every return (no shortcut), and the add_* methods fill the map the corresponding reader uses"""
+    facts = ctx.facts
+    want = {"unicode_compose": "compose_map", "unicode_reduce": "reduce_map"}
+    writers = {"add_unicode_composition": "compose_map", "add_unicode_reduction": "reduce_map"}
+    for name, mapf in sorted(want.items()):
+        b = None
+        for x in facts.fns():
+            if x.cn.endswith("Lang::" + name):
+                b = x
+        if not ctx.require(rule, "Lang::" + name, b):
+            continue
+        sy = ctx.sym(b)
+        cfg = ctx.cfg(b)
+        news = [(bi, t) for bi, t in b.calls() if (t.get("rcn") or "").endswith("Normalize::new")]
+        key = "loop-on-every-path:%s" % name
+        if not news:
+            ctx.fail(rule, key, b.where(), "%s no longer iterates Normalize over its input (fail closed)" % name)
+            continue
+        nbi, nt = news[0]
+        src = S.strip_refs(sy.operand(nt["args"][0]))
+        mp = U.field_path(sy.operand(nt["args"][1]))
+        nexts = [bi for bi, t in b.calls() if (t.get("resolved") or "").endswith("Normalize<'a> as std::iter::Iterator>::next")]
+        hdr = cfg.inner_header(nexts[0]) if nexts else None
+        ok_path = hdr is not None and all(cfg.every_path_passes(0, [hdr]) for _ in [0]) and cfg.dominates(nbi, hdr)
+        ok_args = src == ("arg", 2) and bool(mp and mp[0] == "arg" and mp[1] == 1 and mp[2] == [mapf])
+        if ok_path and ok_args:
+            ctx.ok(rule, key, where(b, nbi, nt), "%s walks Normalize::new(word, &self.%s) on every path to every return" % (name, mapf),
+                   nontrivial=True)
+        elif not ok_path:
+            ctx.fail(rule, key, b.where(), "%s has a path to return that bypasses the normalisation loop (a shortcut / fast path)" % name,
+                     {"witness": "French 'rec\\u{327}' (decomposed ç, no other mark) is neither composed nor folded"})
+        else:
+            ctx.fail(rule, key, where(b, nbi, nt), "%s normalises %s with map %s, expected its `word` argument with self.%s"
+                     % (name, S.show(src, b), mp[2] if mp else "?", mapf),
+                     {"witness": "accent folding uses the composition table or vice versa"})
+    for name, mapf in sorted(writers.items()):
+        b = None
+        for x in facts.fns():
+            if x.cn.endswith("Lang::" + name):
+                b = x
+        if b is None:
+            continue
+        key = "writer-map:%s" % name
+        ins = [(bi, t, U.field_path(rk)) for (bi, t, rk, m) in U.receiver_events(ctx, b) if m == "insert"]
+        sy = ctx.sym(b)
+        ok = len(ins) == 1 and ins[0][2] and ins[0][2][2] == [mapf]
+        if ok:
+            bi, t, _ = ins[0]
+            k = S.strip_refs(sy.operand(t["args"][1]))
+            v = S.strip_refs(sy.operand(t["args"][2]))
+            ok = k[0] == "call" and k[1].endswith("to_vec") and S.strip_refs(k[2][0]) == ("arg", 2) and \
+                v[0] == "call" and v[1].endswith("to_vec") and S.strip_refs(v[2][0]) == ("arg", 3)
+        if ok:
+            ctx.ok(rule, key, b.where(), "%s inserts (from -> to) into self.%s" % (name, mapf), nontrivial=True)
+        else:
+            ctx.fail(rule, key, b.where(), "%s does not insert (from -> to) into self.%s" % (name, mapf),
+                     {"witness": "accents are never folded / composition entries are stored reversed"})
